@@ -75,7 +75,10 @@ def tryFindOverlappingFwd (A : Aut σ α) (pre : Option (Prefilter α)) (i : Inp
     (st : OState σ) : Except MatchErr (OState σ) :=
   let st := { st with mat := Option.none }
   if A.kind != .std then .error .unsupportedOverlapping
-  else if i.isDone then .ok st
+  else if i.isDone then
+    match A.start i.anch with
+    | Option.none => .error (if i.anch then .invalidInputAnchored else .invalidInputUnanchored)
+    | some _ => .ok st
   else if i.anch then ovlImp A i Option.none st else ovlImp A i pre st
 
 /-- `n` successive calls on one state: the reported match (or none) of each
